@@ -217,6 +217,7 @@ func init() {
 			k.PCallback = 10
 			k.PNilOptArg = 12
 			k.PNamedSlice = 18
+			k.PDecoOrphan = 10 // decorators of keys / groups that nothing provides (differential oracle only)
 			k.PSide = 5
 			k.MaxOps = 20
 			return GenCase(t, scale(k, thorough))
